@@ -291,7 +291,33 @@ example : ¬ mount_keys_complete_statement := by
   revert this
   decide
 
+/-! ### to_root_key through nested mount-point stores -/
+
+/-- the root key of `k` behind the layers `ps` (innermost first) is `k` prefixed by every layer, outermost first -/
+theorem to_root_key_chain (ps : List Key) (k : Key) :
+    Mt.toRootKeyChain ps k = ps.reverse.flatten ++ k := by
+  unfold Mt.toRootKeyChain
+  induction ps generalizing k with
+  | nil => simp
+  | cons p ps ih => simp [List.foldl_cons, ih, Pfx.inverse, List.append_assoc]
+
+/-- … and reading that root key through the layers (outermost first) reaches entry `k` of the innermost store:
+`sub.to_root_key(k)` accessed through the root store is `k` of `sub`, for ANY depth of nesting -/
+theorem to_root_key_nested_reaches (P : StoreOps σ) (ps : List Key) (st : σ) (k : Key) :
+    (prefixChain P ps).getBytes st (Mt.toRootKeyChain ps.reverse k) = P.getBytes st k := by
+  rw [to_root_key_chain, List.reverse_reverse]
+  induction ps with
+  | nil => simp [prefixChain]
+  | cons p ps ih =>
+    have h : p <+: (p :: ps).flatten ++ k := by simp [List.flatten_cons, List.append_assoc]
+    rw [prefixChain, prefix_getBytes _ h st]
+    simpa [List.flatten_cons, List.append_assoc] using ih
+
+-- non-vacuity: `gui` mounted inside `web`: `index.html` of the innermost store is `web/gui/index.html` of the root
+example : Mt.toRootKeyChain [["gui".toList], ["web".toList]] [["index.html".toList]].head! =
+    [["web".toList], ["gui".toList], ["index.html".toList]].flatten := by decide
+
 end Liquer.C14
 
--- OBLIGATIONS: Liquer.C14.route_exclusive Liquer.C14.route_exclusive_default Liquer.C14.hit_iff_prefix Liquer.C14.route_innermost Liquer.C14.prefix_strips Liquer.C14.prefix_strips_reads Liquer.C14.mount_union_above Liquer.C14.mount_union_part Liquer.C14.mount_union_default Liquer.C14.mount_union_meta_key Liquer.C14.mount_union_listdir_part Liquer.C14.mount_union_listdir_default Liquer.C14.mount_union_listdir_noroute Liquer.C14.mount_union_keys Liquer.C14.mount_write_exclusive Liquer.C14.mount_write_frame Liquer.C14.mount_write_default_only Liquer.C14.mount_removedir_refuses Liquer.C14.to_root_key_reaches_partial Liquer.C14.to_root_key_default Liquer.C14.mount_keys_complete_partial
+-- OBLIGATIONS: Liquer.C14.route_exclusive Liquer.C14.route_exclusive_default Liquer.C14.hit_iff_prefix Liquer.C14.route_innermost Liquer.C14.prefix_strips Liquer.C14.prefix_strips_reads Liquer.C14.mount_union_above Liquer.C14.mount_union_part Liquer.C14.mount_union_default Liquer.C14.mount_union_meta_key Liquer.C14.mount_union_listdir_part Liquer.C14.mount_union_listdir_default Liquer.C14.mount_union_listdir_noroute Liquer.C14.mount_union_keys Liquer.C14.mount_write_exclusive Liquer.C14.mount_write_frame Liquer.C14.mount_write_default_only Liquer.C14.mount_removedir_refuses Liquer.C14.to_root_key_reaches_partial Liquer.C14.to_root_key_default Liquer.C14.mount_keys_complete_partial Liquer.C14.to_root_key_chain Liquer.C14.to_root_key_nested_reaches
 -- STATEMENT-ONLY: Liquer.C14.to_root_key_reaches_statement Liquer.C14.mount_keys_complete_statement
